@@ -22,7 +22,7 @@
 (*   AddSub(c, r)  add_sub_routine (compiled by a separate transformer)    *)
 (* A behaviour b is a record of the features that touch state:             *)
 (*   [flags, preds, imm (has immediates), pend (has hybrids), hyb (temps   *)
-(*    numbered), fail (raises), ...]                                       *)
+(*    numbered), ops (puts operands into the holder), fail (raises)]       *)
 (* Named deviations (DESIGN.md section 7), both FALSE on the repaired tree:*)
 (*   D1_PredsClassLevel   predicate numbers are never cleared              *)
 (*   D2_NoResetOnFailure  compile_c_stmt does not reset when it raises     *)
@@ -37,17 +37,19 @@ CONSTANTS Insts,               \* compiler instances
 \* abstract catalogue (the harness maps every entry to several concrete texts and checks that each
 \* text has exactly these features)
 Cat ==
-  << [id |-> "plain",  flags |-> {},                 preds |-> {},  imm |-> FALSE, pend |-> FALSE, hyb |-> 0, fail |-> FALSE],
-     [id |-> "cond",   flags |-> {"COND"},           preds |-> {},  imm |-> TRUE,  pend |-> FALSE, hyb |-> 0, fail |-> FALSE],
-     [id |-> "newld",  flags |-> {"NEW", "MEM_READ"}, preds |-> {}, imm |-> TRUE,  pend |-> FALSE, hyb |-> 0, fail |-> FALSE],
-     [id |-> "stjmp",  flags |-> {"MEM_WRITE", "BRANCH"}, preds |-> {}, imm |-> FALSE, pend |-> FALSE, hyb |-> 0, fail |-> FALSE],
-     [id |-> "wp0",    flags |-> {"WPRED"},          preds |-> {0}, imm |-> FALSE, pend |-> FALSE, hyb |-> 0, fail |-> FALSE],
-     [id |-> "wp13",   flags |-> {"WPRED", "COND"},  preds |-> {1, 3}, imm |-> FALSE, pend |-> FALSE, hyb |-> 0, fail |-> FALSE],
-     [id |-> "wpd",    flags |-> {"WPRED"},          preds |-> {},  imm |-> FALSE, pend |-> FALSE, hyb |-> 0, fail |-> FALSE],
-     [id |-> "hyb",    flags |-> {},                 preds |-> {},  imm |-> TRUE,  pend |-> TRUE,  hyb |-> 2, fail |-> FALSE],
-     [id |-> "f_parse", flags |-> {},                preds |-> {},  imm |-> FALSE, pend |-> FALSE, hyb |-> 0, fail |-> TRUE],
-     [id |-> "f_late", flags |-> {"COND", "MEM_READ", "WPRED"}, preds |-> {2}, imm |-> TRUE, pend |-> TRUE, hyb |-> 1, fail |-> TRUE],
-     [id |-> "f_type", flags |-> {"NEW"},            preds |-> {},  imm |-> TRUE,  pend |-> FALSE, hyb |-> 0, fail |-> TRUE] >>
+  << [id |-> "plain",  flags |-> {},                 preds |-> {},  imm |-> FALSE, pend |-> FALSE, hyb |-> 0, ops |-> TRUE, fail |-> FALSE],
+     [id |-> "cond",   flags |-> {"COND"},           preds |-> {},  imm |-> TRUE,  pend |-> FALSE, hyb |-> 0, ops |-> TRUE, fail |-> FALSE],
+     [id |-> "newld",  flags |-> {"NEW", "MEM_READ"}, preds |-> {}, imm |-> TRUE,  pend |-> FALSE, hyb |-> 0, ops |-> TRUE, fail |-> FALSE],
+     [id |-> "stjmp",  flags |-> {"MEM_WRITE", "BRANCH"}, preds |-> {}, imm |-> FALSE, pend |-> FALSE, hyb |-> 0, ops |-> TRUE, fail |-> FALSE],
+     [id |-> "wp0",    flags |-> {"WPRED"},          preds |-> {0}, imm |-> FALSE, pend |-> FALSE, hyb |-> 0, ops |-> TRUE, fail |-> FALSE],
+     [id |-> "wp13",   flags |-> {"WPRED", "COND"},  preds |-> {1, 3}, imm |-> FALSE, pend |-> FALSE, hyb |-> 0, ops |-> TRUE, fail |-> FALSE],
+     [id |-> "wpd",    flags |-> {"WPRED"},          preds |-> {},  imm |-> FALSE, pend |-> FALSE, hyb |-> 0, ops |-> TRUE, fail |-> FALSE],
+     [id |-> "hyb",    flags |-> {},                 preds |-> {},  imm |-> TRUE,  pend |-> TRUE,  hyb |-> 2, ops |-> TRUE, fail |-> FALSE],
+     [id |-> "f_parse", flags |-> {},                preds |-> {},  imm |-> FALSE, pend |-> FALSE, hyb |-> 0, ops |-> FALSE, fail |-> TRUE],
+     [id |-> "f_late", flags |-> {"COND", "MEM_READ", "WPRED"}, preds |-> {2}, imm |-> TRUE, pend |-> TRUE, hyb |-> 1, ops |-> TRUE, fail |-> TRUE],
+     [id |-> "f_type", flags |-> {"NEW"},            preds |-> {},  imm |-> TRUE,  pend |-> FALSE, hyb |-> 0, ops |-> TRUE, fail |-> TRUE],
+     \* fails at its first leaf: the attribute flag of that leaf is already set, nothing is in the holder yet
+     [id |-> "f_early", flags |-> {"NEW"},           preds |-> {},  imm |-> FALSE, pend |-> FALSE, hyb |-> 0, ops |-> FALSE, fail |-> TRUE] >>
 Behaviours == 1..NB
 B(i) == Cat[i]
 SubNames == {"g1", "g2"}
@@ -94,7 +96,7 @@ Stmt(c, b) ==
             /\ IF D2_NoResetOnFailure
                THEN /\ flags' = [flags EXCEPT ![c] = flags[c] \cup B(b).flags]
                     /\ preds' = [preds EXCEPT ![c] = preds[c] \cup B(b).preds]
-                    /\ left' = [left EXCEPT ![c] = left[c] \cup {b}]
+                    /\ left' = [left EXCEPT ![c] = left[c] \cup (IF B(b).ops THEN {b} ELSE {})]
                     /\ pend' = [pend EXCEPT ![c] = pend[c] \cup (IF B(b).pend THEN {b} ELSE {})]
                     /\ imm' = [imm EXCEPT ![c] = imm[c] \cup (IF B(b).imm THEN {b} ELSE {})]
                ELSE Reset(c)
